@@ -1,7 +1,9 @@
 /* h_c13s.c - C13 through the macros (scenario lowered from the driver function vp_c13_macros): REQUIRE_DESTRUCTION plumbing
  * (make_unique<lifetime_monitor>, lifetime_monitor_modifier derived from unique_ptr, lifetime_monitor_releaser::operator+,
  * conversion to unique_ptr<expectation>), the deathwatched destructor, the virtual is_satisfied / is_saturated. */
+#ifndef VP_TOK_CAP
 #define VP_TOK_CAP 1
+#endif
 #include "vp_models.h"
 #include "unit.h"
 #include "vp_models_impl.h"
@@ -35,5 +37,46 @@ void c_seq_destruction(void)
   __CPROVER_assert(vp_exc == 0 && !vp_terminated, "[C15] POST seqdestr.nothing_throws_out_of_a_destructor");
   __CPROVER_assert(early, "REACH seqdestr.in_order"); __CPROVER_assert(!early, "REACH seqdestr.early");
   __CPROVER_assert(0, "REACH! c_seq_destruction");
+}
+/* the text under which a sequenced REQUIRE_DESTRUCTION is known to its sequence: "every report about an expectation carries that
+ * expectation's file, line and text" (C15) - here the requirement is the expectation the report is about (first required in line) */
+static int monitor_named_at(const struct vp_string *m, unsigned long line)
+{
+  /* index of the token pair  <"NAMED_REQUIRE_DESTRUCTION(*obj)"> ... <line> (the line within the next 4 tokens), or -1 */
+  int at = -1;
+  for (int k = 0; k < VP_TOK_CAP; k++) if (k < m->n && at < 0 && m->t[k].kind == VP_T_CSTR && m->t[k].p != 0) {
+    const char *c = (const char *)m->t[k].p;
+    if (c[0] == 'N' && c[1] == 'A' && c[6] == 'R' && c[14] == 'D' && c[25] == '(' && c[26] == '*' && c[27] == 'o') {
+      for (int j = 1; j <= 4; j++) if (k + j < m->n && k + j < VP_TOK_CAP && m->t[k + j].kind == VP_T_ULONG && m->t[k + j].v == line) at = k;
+    }
+  }
+  return at;
+}
+void c_seq_names(void)
+{
+  _Bool early = nondet_bool(); struct OBS o;
+  C13_NAMES(early, &o);
+  __CPROVER_assert(vp_exc == 0 && !vp_terminated, "[C15,C14] POST seqnames.nothing_escapes_and_nothing_throws_out_of_a_destructor");
+  __CPROVER_assert(o.x == 1 && o.y == 1, "[C05,C13] POST seqnames.after_the_death_and_the_call_the_requirement_is_satisfied_and_the_sequence_completed");
+  if (!early) __CPROVER_assert(vp_rep_n == 0 && o.ret == 0, "[C05] POST seqnames.in_order_nothing_is_reported");
+  else {
+    __CPROVER_assert(vp_rep_n == 1 && vp_rep[0].sev == 0 && o.ret == 1, "[C05,C15] POST seqnames.the_early_call_is_exactly_one_fatal_sequence_report_and_changes_nothing");
+    __CPROVER_assert(!vp_rep[0].msg.overflow, "[C15] MODEL token capacity sufficient");
+    __CPROVER_assert(monitor_named_at(&vp_rep[0].msg, (unsigned long)o.extra) >= 0, "[C15,C05] POST seqnames.the_report_names_the_pending_requirement_by_its_text_file_and_line");
+  }
+  __CPROVER_assert(early, "REACH seqnames.in_order"); __CPROVER_assert(!early, "REACH seqnames.early");
+  __CPROVER_assert(0, "REACH! c_seq_names");
+}
+void c_seq_listing(void)
+{
+  struct OBS o;
+  C13_LISTING(&o);
+  __CPROVER_assert(vp_exc == 0 && !vp_terminated, "[C15,C14] POST seqlisting.nothing_throws_out_of_a_destructor");
+  __CPROVER_assert(o.x == 0 && o.ret == 0, "[C06,C13] POST seqlisting.not_completed_while_the_requirement_is_pending_and_not_satisfied_by_the_death_of_the_sequence");
+  __CPROVER_assert(vp_rep_n == 3 && vp_rep[0].sev == 1 && vp_rep[1].sev == 1 && vp_rep[2].sev == 1, "[C06,C13,C15] POST seqlisting.one_listing_then_still_alive_then_unexpected_destruction_all_non_fatal");
+  __CPROVER_assert(!vp_rep[0].msg.overflow, "[C06] MODEL token capacity sufficient");
+  __CPROVER_assert(monitor_named_at(&vp_rep[0].msg, (unsigned long)o.extra) >= 0, "[C06,C15] POST seqlisting.the_listing_names_the_registered_requirement_by_its_text_file_and_line");
+  __CPROVER_assert(vp_rep[1].line == (unsigned long)o.extra, "[C13,C15] POST seqlisting.the_still_alive_report_carries_the_requirement_location");
+  __CPROVER_assert(0, "REACH! c_seq_listing");
 }
 int main(void) { VP_ENTRY(); return 0; }
